@@ -152,7 +152,9 @@ class LeanStage:
             except Exception:
                 pass
         mod = 'Properties.%s' % self.pid
-        rc, out = sh(['lake', 'build', 'FlowCalModel', '+' + mod, 'fcmodel'], cwd=LEAN, timeout=3000)
+        mods = sorted('Properties.' + f[:-5] for f in os.listdir(os.path.join(LEAN, 'Properties'))
+                      if re.match(r'^%s[a-z]?\.lean$' % self.pid, f))
+        rc, out = sh(['lake', 'build', 'FlowCalModel'] + ['+' + m for m in mods] + ['fcmodel'], cwd=LEAN, timeout=3000)
         self.log += out
         if rc != 0:
             errs = re.findall(r'error: ([^\n]*)', out)
@@ -162,7 +164,7 @@ class LeanStage:
         # axiom audit
         audit = os.path.join(LEAN, '.lake', 'Audit_%s.lean' % self.pid)
         with open(audit, 'w') as f:
-            f.write(AUDIT_TEMPLATE % {'mod': mod})
+            f.write('import Lean\n' + ''.join('import %s\n' % m for m in mods) + AUDIT_BODY % {'mods': ', '.join('`' + m for m in mods)})
         rc, out = sh(['lake', 'env', 'lean', audit], cwd=LEAN, timeout=1800)
         self.log += out
         if rc != 0:
@@ -174,7 +176,7 @@ class LeanStage:
                 axs = [a.strip() for a in m.group(2).split(',') if a.strip()]
                 self.theorems[m.group(1)] = axs
         if not self.theorems:
-            self.broken.append('no theorems found in ' + mod)
+            self.broken.append('no theorems found in ' + ', '.join(mods))
             return
         for name, axs in self.theorems.items():
             bad = [a for a in axs if a not in ALLOWED_AXIOMS]
@@ -186,21 +188,20 @@ class LeanStage:
         json.dump({'digest': digest, 'ok': True, 'theorems': self.theorems}, open(cache_file, 'w'))
 
 
-AUDIT_TEMPLATE = '''import Lean
-import %(mod)s
-open Lean Elab Command in
+AUDIT_BODY = '''open Lean Elab Command in
 run_cmd do
   let env ← getEnv
-  let some idx := env.getModuleIdx? `%(mod)s | throwError "module not found"
-  for (n, ci) in env.constants.toList do
-    if env.getModuleIdxFor? n == some idx then
-      match ci with
-      | .thmInfo _ =>
-        let last := match n with | .str _ s => s | _ => ""
-        if !n.isInternal && !(last.startsWith "eq_") && last != "congr_simp" && !(last.startsWith "match_") then
-          let axs ← collectAxioms n
-          logInfo m!"AXIOMS {n} {axs.toList}"
-      | _ => pure ()
+  for modName in [%(mods)s] do
+    let some idx := env.getModuleIdx? modName | throwError "module not found"
+    for (n, ci) in env.constants.toList do
+      if env.getModuleIdxFor? n == some idx then
+        match ci with
+        | .thmInfo _ =>
+          let last := match n with | .str _ s => s | _ => ""
+          if !n.isInternal && !(last.startsWith "eq_") && last != "congr_simp" && !(last.startsWith "match_") then
+            let axs ← collectAxioms n
+            logInfo m!"AXIOMS {n} {axs.toList}"
+        | _ => pure ()
 '''
 
 
@@ -356,11 +357,16 @@ class PropertyCheck:
         for i, (case, impl) in enumerate(zip(batch, results)):
             r = self.model_request(case, impl)
             if r is not None:
-                reqs.append(r)
-                idx.append(i)
+                if isinstance(r, list):          # several model calls for one case
+                    idx.append((i, len(reqs), len(r)))
+                    reqs.extend(r)
+                else:
+                    idx.append((i, len(reqs), None))
+                    reqs.append(r)
         if reqs:
             replies = self.driver.batch(reqs)
-            for i, rep in zip(idx, replies):
+            for i, start, n in idx:
+                rep = replies[start] if n is None else replies[start:start + n]
                 msg = self.compare(batch[i], results[i], rep)
                 if msg:
                     self.disagreements.append((batch[i], msg, {'impl': results[i], 'model': rep}))
@@ -548,7 +554,7 @@ class PropertyCheck:
         cov = {
             'obligations': n_thm + 1,
             'discharged': (n_thm if lean.ok else 0) + (1 if corr_ok and self.evaluations > 0 else 0),
-            'checker_cmd': 'cd lean && lake build FlowCalModel +Properties.%s fcmodel && lake env lean .lake/Audit_%s.lean  (then ./check %s: correspondence)' % (self.pid, self.pid, self.pid),
+            'checker_cmd': 'cd lean && lake build FlowCalModel +Properties.%s[a-z] fcmodel && lake env lean .lake/Audit_%s.lean  (then ./check %s: correspondence)' % (self.pid, self.pid, self.pid),
             'trusted_base': TRUSTED_BASE + list(self.assumptions),
             'theorems': {k: lean.theorems[k] for k in obligations},
             'correspondence_obligation': 'model and implementation agree on all %d cases of this run: %s' % (self.evaluations, 'yes' if corr_ok else 'NO'),
